@@ -312,7 +312,7 @@ func runC07_2(c *core.Ctx) {
 	allFuncs(c, func(f *fn) {
 		for _, call := range callsIn(f.Decl.Body, true) {
 			if flow.IsPkgFunc(f.Info, call, unixPkg, "Close") || flow.IsPkgFunc(f.Info, call, "syscall", "Close") {
-				why, ok := closeOwners[f.Name]
+				why, ok := closeOwners[f.HostName()]
 				arg := ""
 				if len(call.Args) == 1 {
 					arg = exprStr(call.Args[0])
@@ -321,7 +321,7 @@ func runC07_2(c *core.Ctx) {
 					"unix.Close is called from a function that is not in the table of descriptor owners: a second close path makes double close / close of a reused number possible")
 			}
 			if flow.IsCall(f.Info, call, pollerClose) {
-				why, ok := pollerCloseCallers[f.Name]
+				why, ok := pollerCloseCallers[f.HostName()]
 				c.Check(ok, f.Name, "Poller.Close()", call.Pos(), "allowed: "+why,
 					"Poller.Close is called outside engine teardown / constructor failure: a loop may still be polling the descriptor")
 			}
